@@ -17,7 +17,7 @@ func init() {
 		ID:    "C18",
 		Title: "HTTP client survives any server response",
 		Run:   runC18,
-		Explanation: "R1 panic inventory over every function of ociclient (boundary: the http.RoundTripper): each index/slice/string index/type assertion/explicit panic/map store/division/dynamic call/documented-panicking external call is discharged by the bounds prover or by a machine-checked guard obligation — the page size stored in the client is >= 1 on every path of the only constructor (so a full page is non-empty before its last element is taken), the digest handed to digest.Algorithm()/Hash() is known non-empty and validated on every path to the blob-reader constructors (header digest accepted only under IsValidDigest, known digest of a digest-addressed request that was successfully constructed, digest computed from the body, or a HEAD fallback that requires a digest), the scope switch covers every request kind, request headers come from http.NewRequest; " +
+		Explanation: "R1 panic inventory over every function of ociclient (boundary: the http.RoundTripper): each index/slice/string index/type assertion/explicit panic/map store/division/dynamic call/documented-panicking external call/make() size is discharged by the bounds prover or by a machine-checked guard obligation — the page size stored in the client is >= 1 on every path of the only constructor (so a full page is non-empty before its last element is taken), the digest handed to digest.Algorithm()/Hash() is known non-empty and validated on every path to the blob-reader constructors (header digest accepted only under IsValidDigest, known digest of a digest-addressed request that was successfully constructed, digest computed from the body, or a HEAD fallback that requires a digest), the scope switch covers every request kind, request headers come from http.NewRequest, and the size of every make([]T, n, m) is a non-negative constant, a length, a proven len(x)-k, the caller's own argument or bounded by a constant — never a number parsed from a response (field-based flow through struct fields and private helpers); " +
 			"R2 loop progress: every loop in the client is a range/counted loop over a finite value, or every cycle passes through a call that consumes a server response (client.do), or strictly shortens a string (the slice's low bound is proven >= 1); " +
 			"R3 the status gate: (*http.Client).Do is called only from client.do, whose non-2xx/unexpected statuses become errors, and error bodies are read only through io.LimitReader. " +
 			"R1b ociref.IsValidDigest answers true only when go-digest's Parse/Validate reported no error (so validated digests have an available algorithm). " +
